@@ -517,6 +517,7 @@ class Expander:
         self.parent = prog.fns.get(fn.d.get("parentfn")) if fn.d.get("parentfn") else None
         self._pexp = None
         self._active = set()
+        self._depth = 0
 
     def _cb(self, n):
         dk = n.get("dk")
@@ -566,7 +567,44 @@ class Expander:
             return self._pexp._decl_text(d, name)
         return "var:" + name
 
+    def _new_pure_helper(self, n):
+        """the single-`return <expr>;` function, new on this tree, that call node n calls - or None"""
+        if n["k"] != "call" or not n.get("cusr") or "op" in n:
+            return None
+        from ..inline import known_functions
+        kk = getattr(Expander, "_known", None)
+        if kk is None:
+            kk = Expander._known = known_functions() or (None, None)
+        if not kk[0]:
+            return None
+        hs = [self.prog.fns[u] for u in self.prog.resolve(n["cusr"]) if u in self.prog.fns]
+        if not hs or len({(x.pq, x.line) for x in hs}) != 1:
+            return None          # several instantiations of one template definition count as one
+        h = hs[0]
+        from ..program import plain
+        if not h.file.startswith("oomd/") or h.kind not in ("function", "method") or plain(h.d["qname"]) in kk[0]:
+            return None
+        rets = [m for m in h.nodes if m["k"] == "return"]
+        if len(rets) != 1 or "val" not in rets[0] or any(m["k"] in ("decl", "if", "for", "while", "do", "rangefor", "switch", "lambda") for m in h.nodes):
+            return None
+        if len(n.get("args", [])) != len(h.params):
+            return None
+        if h.kind == "method" and "recv" in n and self.fn.nodes[self.fn.strip(n["recv"])]["k"] != "this":
+            return None
+        return h
+
     def _ncb(self, i, n):
+        # a call of a NEW one-expression helper is what that expression is, with the arguments in place of the parameters
+        h = self._new_pure_helper(n) if self._depth < 3 else None
+        if h is not None:
+            self._depth += 1
+            try:
+                amap = {p_["decl"]: self.fn.text(a_, 0, self._cb, self._ncb) for p_, a_ in zip(h.params, n["args"])}
+                rv = next(m for m in h.nodes if m["k"] == "return")["val"]
+                t_ = h.text(rv, 0, lambda r_: amap.get(r_.get("decl")))
+                return t_ if h.nodes[h.strip(rv)]["k"] in ("bin", "cond", "ref", "lit", "member") else "(" + t_ + ")"
+            finally:
+                self._depth -= 1
         # *it / it-> on a forward loop iterator is an element of the container
         if n["k"] == "call" and n.get("op") in ("*", "->") and "recv" in n and not n.get("args"):
             r = self.fn.nodes[self.fn.strip(n["recv"])]
@@ -1159,3 +1197,57 @@ def saved_context_is_a_copy(ctx, tag):
     bad = [x["name"] + ": " + x.get("type", "") for x in ac.get("fields", []) if REF.search(x.get("type", ""))]
     ctx.check(not bad, "action-context-owns-its-values", "E-TYPE (declared type)", "oomd/include/Types.h", "ActionContext's fields are values",
               "ActionContext holds non-owning members (%s): a saved copy still refers to the per-tick objects" % ", ".join(bad))
+
+
+def search_walks(fn):
+    """Searches spelled with the standard algorithm: `it = std::find_if(C.begin(), C.end(), pred)` (or rbegin/rend) is the walk
+    'first element, front to back (back to front), for which pred holds'.  Same descriptor as loop_walk plus "pred" (the closure's usr)
+    and "call" (the find_if node)."""
+    out = []
+    for d in fn.all("decl"):
+        for v in fn.nodes[d].get("vars", []):
+            if v.get("init") is None or v.get("init", -1) < 0:
+                continue
+            c = fn.nodes[fn.strip(v["init"])]
+            if c["k"] != "call" or len(c.get("args", [])) != 3 or not re.search(r"\bfind_if\b", c.get("callee") or c.get("cname") or ""):
+                continue
+            b, e = fn.nodes[fn.strip(c["args"][0])], fn.nodes[fn.strip(c["args"][1])]
+            if b["k"] != "call" or e["k"] != "call" or "recv" not in b or "recv" not in e or fn.text(b["recv"]) != fn.text(e["recv"]):
+                continue
+            pair = (b.get("cname"), e.get("cname"))
+            if pair in (("begin", "end"), ("cbegin", "cend")):
+                direction = "forward"
+            elif pair in (("rbegin", "rend"), ("crbegin", "crend")):
+                direction = "backward"
+            else:
+                continue
+            ln = fn.nodes[fn.strip(c["args"][2])]
+            nm = v["name"]
+            out.append({"dir": direction, "container": fn.text(b["recv"]), "var": nm, "pred": ln.get("lusr"), "call": fn.strip(v["init"]),
+                        "elem": r"^(\(?\*%s\)?\.?|%s->)" % (re.escape(nm), re.escape(nm)), "end": fn.text(fn.strip(c["args"][1]))})
+    return out
+
+
+def loop_walk_any(fn, loop):
+    """loop_walk, plus the iterator loop whose variable is declared before the loop (`it = C.begin(); for (; it != C.end(); ++it)`),
+    as hand-written searches that use the iterator afterwards are spelled."""
+    w = loop_walk(fn, loop)
+    if w is not None or loop.get("stmt") is None:
+        return w
+    sn = fn.nodes[loop["stmt"]]
+    if sn["k"] != "for" or (sn.get("init") is not None and sn.get("init", -1) >= 0 and fn.nodes[sn["init"]]["k"] == "decl"):
+        return None
+    inc = fn.text(sn["inc"]) if sn.get("inc") is not None and sn.get("inc", -1) >= 0 else ""
+    m = re.match(r"^(?:\+\+(\w+)|(\w+)\+\+)$", inc)
+    if not m:
+        return None
+    nm = m.group(1) or m.group(2)
+    init, v = local_init(fn, nm, must=False)
+    if v is None or init is None or init < 0:
+        return None
+    c = fn.nodes[fn.strip(init)]
+    cnd = fn.text(sn["c"]) if sn.get("c") is not None and sn.get("c", -1) >= 0 else ""
+    if c["k"] == "call" and c.get("cname") in ("begin", "cbegin") and "recv" in c and re.search(r"(\.|->)c?end\(\)", cnd) and \
+            not [w_ for w_ in local_writes(fn, nm, must=False) if fn.text(w_) not in ("++" + nm, nm + "++")]:
+        return {"dir": "forward", "container": fn.text(c["recv"]), "var": nm, "elem": r"^(\(?\*%s\)?|%s->)" % (re.escape(nm), re.escape(nm))}
+    return None
